@@ -149,6 +149,7 @@ def run(rep, tier):
         'prefix-closed enumeration: highlighting / word-start of "every prefix" is covered because every shorter string is itself a case',
         'hang = no progress for 2 s on a sub-millisecond case, confirmed alone with a 4x limit (in-process) / 10 s then 40 s (binary)',
         'real-binary layer: strings are executed as lines of one script per batch of 40 (a failing batch is bisected to single lines) and, up to the smaller stated length, one `-c` process per string',
+        'builtin layer: every builtin with every argument list of length 0..1 (nine builtins and thorough: all, also length 2) over 16 boundary words (non-numeric, huge, negative, option-like, empty); stdin is /dev/null',
         'keystroke layer: every sequence of up to 3 (thorough 4) keys over ten keys (letters, blank, quotes, backslash, pipe, multi-byte, TAB, Enter, Ctrl-C) typed into the real interactive binary on a pty; a failure is believed only if reproduced alone',
     ]
     res = common.run_engine('C05', tier)
@@ -173,6 +174,21 @@ def run(rep, tier):
         for s in strings(alpha, 1, L_c):
             cases.append(('c', [s]))
             nlines += 1
+    # builtins with boundary arguments (non-numeric / huge / negative numbers, option-like words, missing operands)
+    BUILTINS = ['alias', 'bg', 'cd', 'cinfo', 'exec', 'exit', 'export', 'fg', 'history', 'jobs', 'read', 'source', 'ulimit', 'unalias', 'vox', 'minfd', 'set', 'unset', 'unpath']
+    BARGS = ['x', '-1', '0', '99999999999999999999', '-n', '-x', '--help', '=', 'a=b', '%1', '%', '/nonexistent', '.', "''", '1.5', '-e']
+    own_process = ('exit', 'exec', 'ulimit', 'cd', 'source', 'set', 'read')     # change the shell for the lines after them
+    nb = 0
+    for b in BUILTINS:
+        lines_b = [b] + ['%s %s' % (b, a) for a in BARGS]
+        if tier == 'thorough' or b in ('fg', 'bg', 'history', 'ulimit', 'exit', 'read', 'export', 'unset', 'alias'):
+            lines_b += ['%s %s %s' % (b, a1, a2) for a1 in BARGS for a2 in BARGS]
+        nb += len(lines_b)
+        if b in own_process:
+            cases += [('c', [l]) for l in lines_b]
+        else:
+            for i in range(0, len(lines_b), 40):
+                cases.append(('script', lines_b[i:i + 40]))
     results = common.pmap(exec_case, cases, chunk=2)
     agree = 0
     for sub in results:
@@ -214,6 +230,7 @@ def run(rep, tier):
     rep.bounds.append({'layer': 'pty: key sequences over %r then Ctrl-C, Enter, sentinel' % KEYS, 'len': kmax, 'sessions': len(kseqs), 'complete': True})
     rep.traces_validated = agree
     rep.bounds.append({'layer': 'real binary: script lines + sentinel', 'len': L_script, 'complete': True})
+    rep.bounds.append({'layer': 'real binary: builtins x boundary argument lists', 'lines': nb, 'complete': True})
     rep.bounds.append({'layer': 'real binary: -c', 'len': L_c, 'complete': True})
     rep.sample({'mode': cases[-1][0], 'line': cases[-1][1][0]})
     if rep.outcomes.get('tok2c', 0) == 0 or rep.outcomes.get('plan1ok1', 0) == 0 or agree < nlines // 2:
